@@ -671,6 +671,12 @@ func runR155(c *core.Ctx) {
 	}
 	defs := map[types.Object][]def{}
 	ast.Inspect(fd.Body, func(x ast.Node) bool {
+		if as, ok := x.(*ast.AssignStmt); ok && len(as.Rhs) == 1 && len(as.Lhs) > 1 {
+			// v, ok := strings.CutSuffix(x, "/"): the first result derives from the call
+			if o := core.ObjOf(inf, as.Lhs[0]); o != nil {
+				defs[o] = append(defs[o], def{as.Rhs[0], as.End()})
+			}
+		}
 		if as, ok := x.(*ast.AssignStmt); ok && len(as.Lhs) == len(as.Rhs) {
 			for i, l := range as.Lhs {
 				o := core.ObjOf(inf, l)
@@ -700,7 +706,7 @@ func runR155(c *core.Ctx) {
 			switch y := x.(type) {
 			case *ast.CallExpr:
 				f := core.Callee(inf, y)
-				if (core.IsFunc(f, "strings", "TrimSuffix") || core.IsFunc(f, "strings", "TrimRight")) && len(y.Args) == 2 {
+				if (core.IsFunc(f, "strings", "TrimSuffix") || core.IsFunc(f, "strings", "TrimRight") || core.IsFunc(f, "strings", "CutSuffix")) && len(y.Args) == 2 {
 					if v := core.ConstOf(inf, y.Args[1]); v != nil && v.ExactString() == `"/"` {
 						found = true
 					}
@@ -709,6 +715,27 @@ func runR155(c *core.Ctx) {
 				if o := inf.Uses[y]; o != nil && depth < 4 {
 					for _, d := range defs[o] {
 						if d.end <= at && normalised(d.rhs, depth+1, d.end) {
+							found = true
+						}
+					}
+				}
+			}
+			return !found
+		})
+		return found
+	}
+	// the root name reaches a pattern directly or through locals derived from it (rootSegment := "/" + root)
+	var mentionsVia func(e ast.Expr, depth int) bool
+	mentionsVia = func(e ast.Expr, depth int) bool {
+		found := false
+		ast.Inspect(e, func(x ast.Node) bool {
+			if id, ok := x.(*ast.Ident); ok {
+				o := inf.Uses[id]
+				if o == rootObj {
+					found = true
+				} else if o != nil && depth < 3 {
+					for _, d := range defs[o] {
+						if mentionsVia(d.rhs, depth+1) {
 							found = true
 						}
 					}
@@ -730,7 +757,7 @@ func runR155(c *core.Ctx) {
 		}
 		mentionsRoot := false
 		for _, a := range call.Args[1:] {
-			if mentions(inf, a, rootObj) {
+			if mentionsVia(a, 0) {
 				mentionsRoot = true
 			}
 		}
@@ -2414,7 +2441,7 @@ func init() {
 		Text: "In the key-set and equality packages, a boolean declared outside a loop and assigned inside it is only ever set to the constant true there (or the loop is left right after the assignment): " +
 			"`found = equals(k, key)` in every iteration lets a later candidate of the same hash bucket erase an earlier match, so colliding keys are reported unknown and duplicates accepted.",
 		Props: []string{"C16", "C10"},
-		Floor: map[string]int{"v2": 2, "root": 2},
+		Floor: map[string]int{"v2": 1, "root": 1},
 		Run:   runR168,
 	})
 }
